@@ -196,6 +196,30 @@ def run(chk):
                 found = True
                 chk.violation({'kind': 'counterexample', 'request': line, 'answer': ' '.join(a), 'vm_kind': 'fixed',
                                'meaning': 'a set_program call that failed changed the behaviour of the fixed-metadata VM'})
+        # fixed-metadata VM: after a successful set_program (new offsets, hence a new buffer) the VM answers as a VM created with that
+        # program and those offsets does -- nothing of the old buffer (the pointers the VM wrote there for an earlier packet, at the
+        # old offsets) is visible to the new program
+        def rd(k):
+            return B.ldx('dw', 0, 1, k) + B.EXIT
+        reloads = []
+        for eng_compile, eng_run in (('', 'x'), ('jit;', 'xj'), ('cl;', 'xc')):
+            for (od, oe), (nd_, ne), ks in (((0, 8), (16, 24), (0, 8)), ((8, 16), (24, 32), (8, 16, 0)), ((0, 8), (8, 16), (0,)),
+                                           ((16, 24), (32, 40), (16, 24, 0, 8)), ((8, 0), (16, 24), (0, 8))):
+                for k in ks:
+                    fresh = 'api fixed new:%s,%d,%d;%s%s' % (rd(k).hex(), nd_, ne, eng_compile, eng_run)
+                    for first in (rd(k), P1):
+                        reloads.append(('api fixed new:%s,%d,%d;%s%s;setp:%s,%d,%d;%s%s' % (first.hex(), od, oe, eng_compile, eng_run, rd(k).hex(), nd_, ne,
+                                                                                           eng_compile, eng_run), fresh))
+        ra = vlib.harness_run(binary, [l for l, _ in reloads])
+        rf = vlib.harness_run(binary, [f for _, f in reloads])
+        for (line, fresh), a, f in zip(reloads, ra, rf):
+            if not a.split() or not f.split() or a.split()[-1] != f.split()[-1] or not f.split()[-1].startswith('ok:'):
+                found = True
+                if len(chk.violations) < 12:
+                    chk.violation({'kind': 'counterexample', 'request': line, 'answer': a[:300], 'fresh_vm_request': fresh, 'fresh_vm_answer': f[:200],
+                                   'vm_kind': 'fixed',
+                                   'meaning': 'after a successful set_program the fixed-metadata VM does not answer as a VM created with that program '
+                                              'and those offsets: the result depends on an earlier execution'})
         # the stack-usage table follows the program: a program whose result is the frame size of a function that exists only in it
         # (main -> f1 -> f2, f2 returns f1's frame size) must see the calculator in force when it is loaded, whatever was loaded before
         PC = B.callx(1) + B.EXIT + B.movr(6, 10) + B.callx(1) + B.EXIT + B.movr(0, 6) + B.alu('sub', 0, src=10) + B.EXIT
@@ -215,7 +239,7 @@ def run(chk):
                     chk.violation({'kind': 'counterexample', 'request': line, 'answer': a[:300], 'expected_tail': ' '.join(tail),
                                    'meaning': 'the frame sizes used for a program depend on a program loaded earlier (the stack-usage table must be '
                                               'recomputed for each loaded program with the calculator in force)'})
-        chk.cov['evaluations'] = len(lines) + 3 + len(su)
+        chk.cov['evaluations'] = len(lines) + 3 + len(su) + 2 * len(reloads)
         chk.cov['distinct_nontrivial'] = len({l for l in lines})
         chk.cov['rule'] = ('all histories of length <= %d over' % (4 if thorough else 2) + ' a 17-operation alphabet from 4 initial programs (exhaustive), plus seeded random '
                            'histories of length 3..12 over the 4 VM kinds; verifier menu {default, accept-all, reject-all, ends-in-exit}, program menu '
